@@ -360,3 +360,71 @@ def body_problem(v, depth=0):
     if rest and not _is_nstring(rest[0]):
         return f'body-fld-md5 is not an nstring: {rest[0]!r}'
     return _ext_problem(rest[1:], 'single-part body')
+
+
+import re  # noqa: E402
+
+_DATE_RE = re.compile(rb'^[ 0-3][0-9]-(Jan|Feb|Mar|Apr|May|Jun|Jul|Aug|Sep|Oct|Nov|Dec)-[0-9]{4} [0-2][0-9]:[0-5][0-9]:[0-6][0-9] [+-][0-9]{4}$')
+
+
+def response_problem(resp):
+    """None if an untagged data response has the shape its grammar gives it (message-data, mailbox-data); otherwise what is wrong.
+    Responses this function does not know are not judged."""
+    if len(resp) < 2 or atom(resp[0]) != b'*':
+        return None
+    a1 = atom(resp[1])
+    if a1 is not None and a1.isdigit() and len(resp) >= 3:
+        kind = (atom(resp[2]) or b'').upper()
+        if kind in (b'EXISTS', b'RECENT', b'EXPUNGE'):
+            if len(resp) != 3:
+                return f'{kind.decode()} carries extra data: {resp[3:]!r}'
+            if kind == b'EXPUNGE' and int(a1) == 0:
+                return 'EXPUNGE 0: message numbers are nz-numbers'
+            return None
+        if kind == b'FETCH':
+            if int(a1) == 0:
+                return 'FETCH 0: message numbers are nz-numbers'
+            if len(resp) != 4 or not isinstance(resp[3], list) or len(resp[3]) % 2:
+                return f'FETCH is not followed by one list of name/value pairs: {resp[3:]!r}'[:300]
+            items = resp[3]
+            for k in range(0, len(items), 2):
+                name, v = (atom(items[k]) or b'').upper(), items[k + 1]
+                if name in (b'UID', b'RFC822.SIZE', b'MODSEQ') and not (_is_number(v) and (name != b'UID' or int(v.val) > 0)):
+                    return f'{name.decode()} is not a number: {v!r}'
+                if name == b'INTERNALDATE' and not (isinstance(v, Tok) and v.kind == 'q' and _DATE_RE.match(v.val)):
+                    return f'INTERNALDATE is not a quoted date-time: {v!r}'
+                if name == b'FLAGS' and not (isinstance(v, list) and all(isinstance(t, Tok) and t.kind == 'a' and t.val for t in v)):
+                    return f'FLAGS is not a list of atoms: {v!r}'
+                if name.startswith(b'BINARY.SIZE[') and not _is_number(v):
+                    return f'{name.decode()} is not a number: {v!r}'
+                if (name.startswith(b'BODY[') or name.startswith(b'BINARY[') or name in (b'RFC822', b'RFC822.HEADER', b'RFC822.TEXT')) and not _is_nstring(v):
+                    return f'{name.decode()[:40]} is not an nstring: {v!r}'[:300]
+            return None
+        return None
+    kind = (a1 or b'').upper()
+    if kind == b'SEARCH':
+        if not all(_is_number(t) and int(t.val) > 0 for t in resp[2:]):
+            return f'SEARCH lists something that is not an nz-number: {resp[2:]!r}'[:300]
+    elif kind == b'FLAGS':
+        if len(resp) != 3 or not isinstance(resp[2], list) or not all(isinstance(t, Tok) and t.kind == 'a' for t in resp[2]):
+            return f'FLAGS is not one list of atoms: {resp[2:]!r}'[:300]
+    elif kind in (b'LIST', b'LSUB'):
+        if len(resp) != 5:
+            return f'{kind.decode()} has {len(resp) - 2} fields, not (flags) delimiter mailbox: {resp[2:]!r}'[:300]
+        if not isinstance(resp[2], list) or not all(isinstance(t, Tok) and t.kind == 'a' and t.val.startswith(b'\\') for t in resp[2]):
+            return f'{kind.decode()} flags are not a list of \\-atoms: {resp[2]!r}'
+        if not (_is_nil(resp[3]) or (isinstance(resp[3], Tok) and resp[3].kind == 'q' and len(resp[3].val) == 1)):
+            return f'{kind.decode()} delimiter is neither NIL nor one quoted character: {resp[3]!r}'
+        if not isinstance(resp[4], Tok):
+            return f'{kind.decode()} mailbox is not an astring: {resp[4]!r}'
+    elif kind == b'STATUS':
+        if len(resp) != 4 or not isinstance(resp[2], Tok) or not isinstance(resp[3], list) or len(resp[3]) % 2:
+            return f'STATUS is not mailbox (attribute value ...): {resp[2:]!r}'[:300]
+        for k in range(0, len(resp[3]), 2):
+            name = (atom(resp[3][k]) or b'').upper()
+            if name in (b'MESSAGES', b'RECENT', b'UIDNEXT', b'UIDVALIDITY', b'UNSEEN', b'HIGHESTMODSEQ') and not _is_number(resp[3][k + 1]):
+                return f'STATUS {name.decode()} is not a number: {resp[3][k + 1]!r}'
+    elif kind == b'CAPABILITY':
+        if not all(isinstance(t, Tok) and t.kind == 'a' for t in resp[2:]):
+            return f'CAPABILITY lists something that is not an atom: {resp[2:]!r}'[:300]
+    return None
